@@ -56,9 +56,17 @@ def pool_codes():
     import pymemcache.client.base as base
     codes = []
     P = pool.ObjectPool
-    for name in ("get", "release", "destroy", "clear"):
-        codes.append(getattr(P, name).__code__)
-    codes.append(P.get_and_release.__wrapped__.__code__)
+    for name in ("get", "release", "destroy", "clear", "get_and_release"):
+        fn = getattr(P, name)
+        fn = getattr(fn, "__wrapped__", fn)          # the generator function behind @contextmanager
+        if hasattr(fn, "__code__"):
+            codes.append(fn.__code__)
+    # helper functions a refactor may add to the pool module are scheduling points too
+    for name, fn in vars(P).items():
+        f = getattr(fn, "__wrapped__", fn)
+        if callable(f) and hasattr(f, "__code__") and f.__code__ not in codes and not name.startswith("__") \
+                and name not in ("used", "free"):
+            codes.append(f.__code__)
     for name, fn in vars(base.PooledClient).items():
         if callable(fn) and hasattr(fn, "__code__") and not name.startswith("__init__"):
             codes.append(fn.__code__)
